@@ -157,6 +157,8 @@ type World struct {
 	StatusPageSize int
 	FleetSplit     int  // number of FleetInstances sets the answer is split into
 	FleetErrors    bool // CreateFleet answers with errors and no instances
+	// ReadyStagger: every other fleet instance becomes ready one poll later than ReadyFromPoll.
+	ReadyStagger bool
 	polls          int
 
 	seqInst int
@@ -258,6 +260,7 @@ type NodeOpt struct {
 	Cordoned    bool
 	TaintValue  *string // escalator taint with this value
 	TaintAge    *time.Duration
+	TaintEffect v1.TaintEffect // effect of the escalator taint set through TaintValue / TaintAge (default NoSchedule)
 	ForceTaint  bool
 	Annotation  string
 	CPUMilli    int64
@@ -270,6 +273,15 @@ type NodeOpt struct {
 func (w *World) newInstanceID(asg string) string {
 	w.seqInst++
 	return fmt.Sprintf("i-%s-%03d", asg, w.seqInst)
+}
+
+// azOf spreads instances over two zones (odd sequence numbers in az-b), so that the order of an
+// ASG's instance list differs from the lexicographic order of the provider ids.
+func azOf(id string) string {
+	if len(id) > 0 && (id[len(id)-1]-'0')%2 == 1 {
+		return "az-b"
+	}
+	return "az-a"
 }
 
 // NodeName gives the node name for an instance id.
@@ -291,7 +303,7 @@ func InstanceIDOf(providerID string) string {
 func (w *World) AddNode(asg *ASG, o NodeOpt) *v1.Node {
 	id := w.newInstanceID(asg.Name)
 	now := time.Now()
-	asg.Instances = append(asg.Instances, AInst{ID: id, AZ: "az-a"})
+	asg.Instances = append(asg.Instances, AInst{ID: id, AZ: azOf(id)})
 	asg.Desired++
 	w.EC2[id] = &Inst{ID: id, State: "running", Launch: now.Add(-o.Age - 30*time.Second), ASG: asg.Name, Registered: true}
 	n := w.makeNode(asg, id, now.Add(-o.Age))
@@ -300,10 +312,14 @@ func (w *World) AddNode(asg *ASG, o NodeOpt) *v1.Node {
 	}
 	n.Spec.Unschedulable = o.Cordoned
 	n.Spec.Taints = append(n.Spec.Taints, o.Foreign...)
+	eff := o.TaintEffect
+	if eff == "" {
+		eff = v1.TaintEffectNoSchedule
+	}
 	if o.TaintValue != nil {
-		n.Spec.Taints = append(n.Spec.Taints, v1.Taint{Key: "atlassian.com/escalator", Value: *o.TaintValue, Effect: v1.TaintEffectNoSchedule})
+		n.Spec.Taints = append(n.Spec.Taints, v1.Taint{Key: "atlassian.com/escalator", Value: *o.TaintValue, Effect: eff})
 	} else if o.TaintAge != nil {
-		n.Spec.Taints = append(n.Spec.Taints, v1.Taint{Key: "atlassian.com/escalator", Value: fmt.Sprint(now.Add(-*o.TaintAge).Unix()), Effect: v1.TaintEffectNoSchedule})
+		n.Spec.Taints = append(n.Spec.Taints, v1.Taint{Key: "atlassian.com/escalator", Value: fmt.Sprint(now.Add(-*o.TaintAge).Unix()), Effect: eff})
 	}
 	if o.ForceTaint {
 		n.Spec.Taints = append(n.Spec.Taints, v1.Taint{Key: "atlassian.com/escalator-force", Value: "x", Effect: v1.TaintEffectNoSchedule})
@@ -334,7 +350,7 @@ func (w *World) makeNode(asg *ASG, id string, created time.Time) *v1.Node {
 			Labels:            map[string]string{asg.LabelKey: asg.LabelValue},
 			CreationTimestamp: metav1.NewTime(created),
 		},
-		Spec: v1.NodeSpec{ProviderID: ProviderID("az-a", id)},
+		Spec: v1.NodeSpec{ProviderID: ProviderID(azOf(id), id)},
 		Status: v1.NodeStatus{Allocatable: v1.ResourceList{
 			v1.ResourceCPU:    *resource.NewMilliQuantity(asg.CPUMilli, resource.DecimalSI),
 			v1.ResourceMemory: *resource.NewQuantity(asg.MemBytes, resource.BinarySI),
@@ -348,6 +364,7 @@ type PodOpt struct {
 	CPUMilli  int64
 	MemBytes  int64
 	Selector  map[string]string
+	Affinity  *v1.Affinity
 	DaemonSet bool
 	Phase     v1.PodPhase
 }
@@ -366,6 +383,7 @@ func (w *World) AddPod(o PodOpt) *v1.Pod {
 			}}}},
 		},
 	}
+	p.Spec.Affinity = o.Affinity
 	if o.DaemonSet {
 		p.OwnerReferences = []metav1.OwnerReference{{Kind: "DaemonSet", Name: "ds"}}
 	}
@@ -420,7 +438,7 @@ func (w *World) Settle() {
 	for _, a := range w.ASGs {
 		for int64(len(a.Instances)) < a.Desired {
 			id := w.newInstanceID(a.Name)
-			a.Instances = append(a.Instances, AInst{ID: id, AZ: "az-a"})
+			a.Instances = append(a.Instances, AInst{ID: id, AZ: azOf(id)})
 			w.EC2[id] = &Inst{ID: id, State: "running", Launch: now.Add(-20 * time.Second), ASG: a.Name}
 		}
 		for _, in := range a.Instances {
